@@ -178,7 +178,7 @@ def submit_cond(ctx, pool):
     out = os.path.join(ctx.scratch, "cond.ndjson")
     c1 = ctx.cfg("pp", "CondIncl_mc.cfg", MaxDepth=3 if q else 5)
     c2 = ctx.cfg("pp", "CondIncl_mc.cfg", MaxDepth=2, FixSkipLine=False)
-    c3 = ctx.cfg("pp", "CondIncl_gen.cfg", MaxDepth=2 if q else 3)
+    c3 = ctx.cfg("pp", "CondIncl_gen.cfg", MaxDepth=3)      # depth 3 is needed to reach the scanner inside the scanner (skip_cond_incl2 recursion)
     return dict(out=out,
                 mc=pool.submit(ctx.tlc_expect_ok, "pp", "CondIncl", c1, "cond_incl/skip scanner design does not refine 6.10.1", workers=2),
                 ctl=pool.submit(ctx.tlc, "pp", "CondIncl", c2, workers=1, count=False),
@@ -194,7 +194,7 @@ def finish_cond(ctx, tree, job):
     if len(beh) < 1000:
         raise Infra("CondIncl generator wrote only %d behaviours" % len(beh))
     beh.sort(key=lambda b: json.dumps(b["lines"]))
-    cases = cond_cases(beh, ctx.seed, 4 if q else 1)
+    cases = cond_cases(beh, ctx.seed, 12 if q else 1)
     mid = cases[len(cases) // 2]
     ctx.sample(dict(kind="directive sequence", text=cond_case_text(mid["lines"], mid["depth"]), expected_tokens=mid["exp"]))
     replay_cond(ctx, tree, cases)
